@@ -125,10 +125,18 @@ impl Prop for C02P {
                 v.push(format!("survivors {}x{}", c, r));
             }
         }
+        for (c, r) in super::hugezst::shapes() {
+            v.push(format!("hugezst {}x{}", c, r));
+        }
         v
     }
     fn run_unit(&self, unit: &str, ctx: &mut Ctx) {
         let parts: Vec<&str> = unit.split(' ').collect();
+        if parts[0] == "hugezst" {
+            let (c, r) = super::hugezst::parse_shape(parts[1]);
+            run_huge_zst(c, r, ctx);
+            return;
+        }
         if parts[0] == "survivors" {
             let (a, b) = parts[1].split_once('x').unwrap();
             run_survivors(a.parse().unwrap(), b.parse().unwrap(), ctx);
@@ -160,6 +168,7 @@ impl Prop for C02P {
          (the fixed set 2^31, 2^32, 2^63, usize::MAX/2, MAX/2+1, MAX-1, MAX and every out-of-range index whose product with the receiver's stride wraps back into the column slice): \
          in range => x[(c,r)], x[r][c], col(c)[r], their mutable forms (IndexMut, col_mut(c)[r] through Index and IndexMut) and the four unchecked getters all yield the ADDRESS of the expected root cell; \
          out of range => every checked accessor panics and the root is unchanged. \
+         Arrays of () with close to usize::MAX cells (usize::MAX x 1, 1 x usize::MAX, MAX/k x k, 2^32 x (2^32-1), ...) and their windows: every accessor must accept the four corner coordinates (and their neighbours) and reject every coordinate just outside or far outside - the offset arithmetic must not overflow for a cell that exists. \
          Owned arrays reached through a history are covered too: every array of owning elements (shapes up to 3x3) that survives an operation in which the k-th call into caller code (iterator, Clone, Drop, comparator, key function) panicked and was caught - every operation instance and every k, and the fault-free runs - is probed the same way: every in-range coordinate must denote data()[row*num_cols()+col] through all six checked accessors, every other coordinate must panic. \
          A case is (receiver, coordinate) with all accessors probed; non-trivial = in-range coordinate; distinct by (receiver, coordinate)."
             .into()
@@ -292,4 +301,106 @@ fn run_survivors(c: usize, r: usize, ctx: &mut Ctx) {
             std::mem::forget(t);
         }
     });
+}
+
+/// Arrays of () with close to usize::MAX cells and their windows: the accessors' offset arithmetic must not
+/// overflow for a cell that exists, and must still reject every coordinate outside. (Addresses of zero-sized
+/// cells carry no information: only accept / reject is compared.)
+fn run_huge_zst(c: usize, r: usize, ctx: &mut Ctx) {
+    fn ro<V: TooDeeOps<()>>(v: &V, x: usize, y: usize, in_range: bool) -> Vec<(&'static str, Result<(), String>)> {
+        let mut out = vec![
+            ("[(c,r)]", guarded(|| {
+                let _ = &v[(x, y)];
+            })),
+            ("[r][c]", guarded(|| {
+                let _ = &v[y][x];
+            })),
+            ("col(c)[r]", guarded(|| {
+                let _ = &v.col(x)[y];
+            })),
+        ];
+        if in_range {
+            out.push(("get_unchecked", guarded(|| {
+                let _ = unsafe { v.get_unchecked((x, y)) };
+            })));
+            out.push(("get_unchecked_row[c]", guarded(|| {
+                let _ = &unsafe { v.get_unchecked_row(y) }[x];
+            })));
+        }
+        out
+    }
+    fn rw<V: TooDeeOpsMut<()>>(v: &mut V, x: usize, y: usize, in_range: bool) -> Vec<(&'static str, Result<(), String>)> {
+        let mut out = vec![
+            ("mut [(c,r)]", guarded(|| v[(x, y)] = ())),
+            ("mut [r][c]", guarded(|| v[y][x] = ())),
+            ("mut col_mut(c)[r]", guarded(|| v.col_mut(x)[y] = ())),
+        ];
+        if in_range {
+            out.push(("get_unchecked_mut", guarded(|| unsafe { *v.get_unchecked_mut((x, y)) = () })));
+            out.push(("get_unchecked_row_mut[c]", guarded(|| unsafe { v.get_unchecked_row_mut(y)[x] = () })));
+        }
+        out
+    }
+    for (s, e) in super::hugezst::windows(c, r) {
+        let (wc, wr) = (e.0 - s.0, e.1 - s.1);
+        let mut coords: Vec<(usize, usize)> = Vec::new();
+        for x in [0, 1, wc / 2, wc.saturating_sub(2), wc - 1, wc, wc.wrapping_add(1), usize::MAX / 2, usize::MAX] {
+            for y in [0, 1, wr / 2, wr.saturating_sub(2), wr - 1, wr, wr.wrapping_add(1), usize::MAX / 2, usize::MAX] {
+                coords.push((x, y));
+            }
+        }
+        coords.sort_unstable();
+        coords.dedup();
+        for (x, y) in coords {
+            for kind in 0..3u8 {
+                if kind == 0 && (s, e) != ((0, 0), (c, r)) {
+                    continue;
+                }
+                let name = ["TooDee<()>", "view", "view_mut"][kind as usize];
+                ctx.case(
+                    || format!("TooDee<()> {}x{} window {:?}-{:?} as {} at ({},{})", c, r, s, e, name, x, y),
+                    |cs| {
+                        let in_range = x < wc && y < wr;
+                        if in_range {
+                            cs.nontrivial((c, r, s, e, kind, x, y));
+                        }
+                        cs.outcome(if in_range { "in-range" } else { "out-of-range" });
+                        let mut t: TooDee<()> = super::hugezst::array(c, r);
+                        let probes = match kind {
+                            0 => {
+                                let mut p = ro(&t, x, y, in_range);
+                                p.extend(rw(&mut t, x, y, in_range));
+                                p
+                            }
+                            1 => match guarded(|| t.view(s, e)) {
+                                Ok(v) => ro(&v, x, y, in_range),
+                                Err(m) => {
+                                    cs.fail("access:panics-in-range:view", format!("view({:?},{:?}) panicked: {}", s, e, m));
+                                    return;
+                                }
+                            },
+                            _ => match guarded(|| t.view_mut(s, e)) {
+                                Ok(mut v) => {
+                                    let mut p = ro(&v, x, y, in_range);
+                                    p.extend(rw(&mut v, x, y, in_range));
+                                    p
+                                }
+                                Err(m) => {
+                                    cs.fail("access:panics-in-range:view_mut", format!("view_mut({:?},{:?}) panicked: {}", s, e, m));
+                                    return;
+                                }
+                            },
+                        };
+                        for (acc, res) in probes {
+                            match (in_range, res) {
+                                (true, Err(m)) => cs.fail(&format!("access:panics-in-range:{}", acc), format!("{} at ({},{}) of the {}x{} window panicked: {}", acc, x, y, wc, wr, m)),
+                                (false, Ok(())) => cs.fail(&format!("access:no-panic-out-of-range:{}", acc), format!("{} at ({},{}) of the {}x{} window returned", acc, x, y, wc, wr)),
+                                _ => {}
+                            }
+                        }
+                    },
+                );
+            }
+        }
+    }
 }
